@@ -5,6 +5,7 @@ package main
 // reference model written from the property.
 
 import (
+	"encoding/json"
 	"fmt"
 	"sort"
 	"strings"
@@ -28,6 +29,7 @@ type letter struct {
 	Sender   string // account that signs and sends the ethereum transaction
 	Chan     string // "contract": changenode() of the governance contract; "direct": the precompile 0xfe called directly, the 20 sender bytes chosen by the caller
 	Replay   int    // k>0: literal payload of the k-th request of the sequence
+	EnvNonce bool   // replay whose UNSIGNED envelope field AdminOPCmd.Nonce is set to the sender's current account nonce (message and signatures untouched)
 	CmdType  string
 	VCmd     string
 	Target   string
@@ -63,7 +65,7 @@ var unbLetters = map[string]bool{
 var miniLetters = map[string]bool{
 	"add(K,0)": true, "upd(B,5)": true, "rm(B)": true, "Y:upd(B,1)": true,
 	"upd(B,5)@n-1": true, "upd(B,5)@n+1": true, "Y>X:upd(B,5)": true, "upd(B,5)/dup": true,
-	"replay#1": true, "Y~:replay#1": true,
+	"replay#1": true, "Y~:replay#1": true, "renonce:replay#1": true,
 }
 
 const (
@@ -180,6 +182,8 @@ func buildAlphabet() []letter {
 	// literal replays of earlier requests of the sequence
 	add(letter{Name: "replay#1", Sender: "X", Chan: "contract", Replay: 1, Core: true})
 	add(letter{Name: "Y:replay#1", Sender: "Y", Chan: "contract", Replay: 1, Core: false})
+	add(letter{Name: "renonce:replay#1", Sender: "X", Chan: "contract", Replay: 1, EnvNonce: true, Core: true})
+	add(letter{Name: "renonce:replay#2", Sender: "X", Chan: "contract", Replay: 2, EnvNonce: true, Core: true})
 	add(letter{Name: "Y~:replay#1", Sender: "Y", Chan: "direct", Replay: 1, Core: true})
 	add(letter{Name: "Y~:replay#2", Sender: "Y", Chan: "direct", Replay: 2, Core: false})
 	add(letter{Name: "Z:replay#1", Sender: "Z", Chan: "contract", Replay: 1, Core: false})
@@ -229,7 +233,7 @@ func (l *letter) concretise(nonces map[string]uint64) *payload {
 		of = l.Addr
 	}
 	n := nonces[of] + uint64(int64(l.Delta)) // wraps for −1 at nonce 0
-	var addr []byte // stays empty for a request that names no account
+	var addr []byte                          // stays empty for a request that names no account
 	if l.Addr != "" {
 		addr = acct(l.Addr).addr.Bytes()
 	}
@@ -264,6 +268,24 @@ func (l *letter) concretise(nonces map[string]uint64) *payload {
 		p.Describe += " (signed over another message)"
 	}
 	return p
+}
+
+// withEnvelopeNonce: the same signed message and signatures, the unsigned envelope field
+// AdminOPCmd.Nonce set to n.  The ground truth (signed nonce, signers) is unchanged.
+func (p *payload) withEnvelopeNonce(n uint64) *payload {
+	var cmd gtypes.AdminOPCmd
+	if err := json.Unmarshal(p.Tagged[len(gtypes.AdminTag):], &cmd); err != nil {
+		panic(err)
+	}
+	cmd.Nonce = n
+	b, err := json.Marshal(&cmd)
+	if err != nil {
+		panic(err)
+	}
+	q := *p
+	q.Tagged = tagged(b)
+	q.Describe += fmt.Sprintf(" [unsigned envelope nonce set to %d]", n)
+	return &q
 }
 
 // submission is one ethereum transaction carrying a payload.
@@ -472,6 +494,9 @@ func runSequence(kase seqCase) seqResult {
 					core.Fatal("letter %s at position %d refers to a later request", l.Name, pos+1)
 				}
 				p = payloads[l.Replay-1]
+				if l.EnvNonce {
+					p = p.withEnvelopeNonce(m.nonce[l.Sender])
+				}
 			} else {
 				p = l.concretise(m.nonce)
 			}
